@@ -43,7 +43,7 @@ STUB = ["choice of the running worker thread (baton scheduler, line events in mo
 ASSUMPTIONS = ["the eval'd equation lambdas and numpy/pandas run atomically between two pre-emption points",
                "double evaluation of an equation is allowed; a second VALUE for one (element, time) is not"]
 FAULT_KINDS = ["preemption"]
-PROBES = ["stochastic_expression_as_scenario_constant", "time_step_refined_through_the_scenario", "plot_with_a_step_of_its_own", "agent_callback_reads_elements_during_a_reset", "element_of_an_arrayed_constant_edited", "edits_on_a_registered_scenario_model", "first_equation_after_dependants_were_read", "failed_modelling_call", "scenario_constant_then_scenario_reset", "long_stochastic_run", "edit_landed_inside_a_run", "stochastic_scenario_run_repeatedly", "read_via_memoize", "read_via_call", "read_via_plot", "decimal_dt_race", "edit_after_dependant_read", "initial_value_edit", "preempted_between_check_and_store", "fresh_called_twice_for_one_time",
+PROBES = ["user_function_registered_again", "stochastic_expression_as_scenario_constant", "time_step_refined_through_the_scenario", "plot_with_a_step_of_its_own", "agent_callback_reads_elements_during_a_reset", "element_of_an_arrayed_constant_edited", "edits_on_a_registered_scenario_model", "first_equation_after_dependants_were_read", "failed_modelling_call", "scenario_constant_then_scenario_reset", "long_stochastic_run", "edit_landed_inside_a_run", "stochastic_scenario_run_repeatedly", "read_via_memoize", "read_via_call", "read_via_plot", "decimal_dt_race", "edit_after_dependant_read", "initial_value_edit", "preempted_between_check_and_store", "fresh_called_twice_for_one_time",
           "run_repeated", "scenario_reset_cache"]
 EXHAUSTIVE = {"quick": False, "thorough": False}
 
@@ -98,7 +98,9 @@ def build(defs, start, stop, dt):
         m.stocks[n].initial_value = m.constants[iv] if isinstance(iv, str) else float(iv)
         m.stocks[n].equation = _eq(m, n, defs[n])
     # c3 depends on k2 only THROUGH the body of a user function (the model handle), not through anything its equation names
-    taxed = m.function("taxed", lambda model, t, x: x * (1.0 + model.evaluate_equation("k2", t)))
+    tax_v = defs.get("taxed_v", 1)
+    taxed = m.function("taxed", (lambda model, t, x: x * (1.0 + model.evaluate_equation("k2", t))) if tax_v == 1 else
+                       (lambda model, t, x: x * (3.0 + model.evaluate_equation("k2", t))))
     m.converter("c3")
     m.converters["c3"].equation = taxed(m.converters["c1"])
     # c4 aggregates an ARRAYED constant: it depends on the vector's elements, which can be edited one by one
@@ -227,6 +229,10 @@ def generate(spec):
             ops.append({"op": "scenario_constant", "elem": rng.choice(["k1", "k2"]), "value": rng.choice([0.0, 0.5, 1.0, 3.0, -2.0])})
         else:
             ops.append({"op": "scenario_reset_cache"})
+    if rng.random() < 0.12:
+        # the user function behind c3 is registered AGAIN under its name with another body (a notebook cell run again): whether the
+        # new body takes effect or the first registration stands is not prescribed - a mixture of the two is excluded
+        ops.insert(rng.randint(1, len(ops)), {"op": "redefine_function"})
     if rng.random() < 0.15:
         # the scenario's time step is refined (or coarsened) somewhere in the history
         ops.insert(rng.randint(1, len(ops)), {"op": "change_dt", "dt": rng.choice([x for x in (1.0, 0.5, 0.25) if x != dt])})
@@ -241,7 +247,7 @@ def generate(spec):
         # the model is registered with bptk, the edits are made on the registered scenario's own model and "run" is
         # bptk.run_scenarios (no scenario settings in play: the scenario's constants stay empty)
         # (the handle of an arrayed element of a scenario's clone is not arrayed: element-wise edits stay with the plain histories)
-        ops = [o for o in ops if o["op"] not in ("scenario_constant", "set_vector_element", "change_dt")]
+        ops = [o for o in ops if o["op"] not in ("scenario_constant", "set_vector_element", "change_dt", "redefine_function")]
     return {"property": PROPERTY, "kind": "edit", "start": start, "stop": stop, "dt": dt, "ops": ops, "late": late, "bptk": through_bptk,
             # a hybrid model: an agent whose documented reset_cache() callback reads SD elements (a "soft reset" that re-reads its budget)
             "observer": (not through_bptk) and rng.random() < 0.25,
@@ -450,7 +456,7 @@ def _execute_edit(case):
         res.probe("first_equation_after_dependants_were_read")
     live = build(defs, start, stop, dt)
     b = None
-    if case.get("bptk") and not any(o["op"] in ("scenario_constant", "set_vector_element", "change_dt") for o in case["ops"]):
+    if case.get("bptk") and not any(o["op"] in ("scenario_constant", "set_vector_element", "change_dt", "redefine_function") for o in case["ops"]):
         import BPTK_Py
         from worlds.server_world import configure_bptk_globals
         configure_bptk_globals()
@@ -514,6 +520,15 @@ def _execute_edit(case):
 
     def compare(n_op, op):
         fresh = build(defs, start, stop, rs["dt"])
+        if redefined[0]:
+            # either reading of "registered again" is fine, as long as it is ONE of them for every time
+            alt = build(dict(defs, taxed_v=2), start, stop, rs["dt"])
+            try:
+                probe_ = [(read(live, "c3", t), fresh.evaluate_equation("c3", t), alt.evaluate_equation("c3", t)) for t in rs["grid"]]
+            except Exception:
+                probe_ = []
+            if probe_ and all(a == c or (a != a and c != c) for a, _, c in probe_) and not all(a == b_ for a, b_, _ in probe_):
+                fresh = alt
         for n in ELEMS:
             for t in rs["grid"]:
                 try:
@@ -541,6 +556,7 @@ def _execute_edit(case):
             live.constants[op["elem"]].equation = float(op["value"])
 
     last_edit = [None]
+    redefined = [False]
     for n_op, op in enumerate(case["ops"]):
         log.add("op", n_op, op)
         kind = op["op"]
@@ -624,6 +640,8 @@ def _execute_edit(case):
                 res.violate("C08.a-run-not-repeatable", {"op_index": n_op, "equations": op["equations"]})
             fresh = build(defs, start, stop, rs["dt"])
             f3 = run(fresh, op["equations"])
+            if f1 != f3 and redefined[0]:
+                f3 = run(build(dict(defs, taxed_v=2), start, stop, rs["dt"]), op["equations"])     # (the other reading of "registered again")
             if f1 != f3:
                 bad = [c for c in f1 if f1.get(c) != f3.get(c)]
                 res.violate("C08.a-stale-after-edit", {"op_index": n_op, "op": op, "columns": bad, "via": "SdSimulation.start",
@@ -644,6 +662,11 @@ def _execute_edit(case):
             scen.constants[op["elem"]] = op["value"]
             scen.reset_cache()
             SdSimulation(model=live, name="edit").change_equation(name=op["elem"], value=op["value"])
+            last_edit[0] = op
+        elif kind == "redefine_function":
+            res.probe("user_function_registered_again")
+            live.function("taxed", lambda model, t, x: x * (3.0 + model.evaluate_equation("k2", t)))
+            redefined[0] = True
             last_edit[0] = op
         elif kind == "change_dt":
             # what bptk does when a scenario's run specs are refined (REST / session settings): the runner writes them into the
